@@ -613,6 +613,51 @@ let handle (r : reader) : unit =
       let v = check maxd cells from to_ asc strict nosplit out in
       out_s " |";
       out_bool v.v_wf; out_bool v.v_subset; out_bool v.v_between; out_bool v.v_order; out_bool v.v_bracket; out_bool v.v_samecell
+  | "EFF" ->
+      (* EFF df cap h n (st id depth nbytes payload)* UPD k POST
+         UPD = A st id depth nbytes payload | C st nids id* | P cap h ; POST = - | R | K st id depth nbytes payload
+         -> OK neff lock tmp VIEW ; VIEW'   with VIEW = FAIL | cnt (id st depth payload nbytes)* *)
+      let rec nat_of_int i = if i <= 0 then O else S (nat_of_int (i - 1)) in
+      let next_st r = (match next r with "v" -> SValid | "d" -> SDeprecated | _ -> SRemoved) in
+      let df = next r = "1" in
+      let cap = next_int r in
+      let h = next_n r in
+      let next_ent r =
+        let st = next_st r in let id = next_n r in let d = next_n r in let nb = next_n r in let pl = next_n r in
+        (({ m_st = st; m_id = id; m_depth = d }, nb), pl) in
+      let ents = next_list r next_ent in
+      let next_upd r = (match next r with
+        | "A" -> let ((m, nb), pl) = next_ent r in UAppend (m, nb, pl)
+        | "C" -> let st = next_st r in let ids = next_list r next_n in UChg (ids, st)
+        | _ -> let c = next_int r in let h2 = next_n r in UPurge (nat_of_int c, h2)) in
+      let u = next_upd r in
+      let k = next_int r in
+      let f = mk_file (nat_of_int cap) h ents in
+      let w0 = { main = f; lock = false; tmp = None } in
+      let out_view (f : n file) =
+        (match view N0 f with
+         | None -> out_s " FAIL"
+         | Some v ->
+             out_int (List.length v);
+             let sz = sizes_of f in
+             List.iteri (fun i (m, pl) ->
+               out_n m.m_id;
+               out_s (match m.m_st with SValid -> " v" | SDeprecated -> " d" | SRemoved -> " r");
+               out_n m.m_depth; out_n pl; out_n (List.nth sz i)) v) in
+      let rec nat_to_int = function O -> 0 | S x -> 1 + nat_to_int x in
+      let w = at_prefix df w0 u (nat_of_int k) in
+      out_s "OK";
+      out_int (nat_to_int (n_effects df w0 u));
+      out_bool w.lock;
+      out_bool (match w.tmp with Some _ -> true | None -> false);
+      out_view w.main;
+      out_s " ;";
+      (match next r with
+       | "R" -> let w2 = at_prefix df w0 u (nat_of_int 100000) in out_bool w2.lock; out_view w2.main
+       | "K" -> let ((m, nb), pl) = next_ent r in
+                let wc = cleanup w in
+                let w2 = at_prefix df wc (UAppend (m, nb, pl)) (nat_of_int 100000) in out_bool w2.lock; out_view w2.main
+       | _ -> out_s " -")
   | "EXPR" ->
       let q = next_qty r in
       let w = next_n r in
